@@ -30,7 +30,8 @@ class Instrumented:
         self.modules = {}
         self.rewrites = {}
         self.loops = {}
-        self.shims = {"numpy": npshim.module()}
+        from . import ctshim
+        self.shims = {"numpy": npshim.module(), "ctypes": ctshim.module()}
         if shims:
             self.shims.update(shims)
         self.builtins = shadow.make_builtins(self._import)
